@@ -174,6 +174,7 @@ type evLaunchSpec struct {
 	Replicas  int               `json:"replicas"`
 	Real      bool              `json:"real"` // real `env` child instead of the simulated command
 	Dir       string            `json:"dir"`
+	Others    int               `json:"others"` // further processes launched at the same time, each with its own per-process values
 }
 
 func genEvLaunch(rng *rand.Rand, real bool) evLaunchSpec {
@@ -197,6 +198,10 @@ func genEvLaunch(rng *rand.Rand, real bool) evLaunchSpec {
 		sp.Replicas = 1
 	}
 	sp.Dir = []string{"", "/tmp", "/var/tmp", "/"}[rng.Intn(4)]
+	if !real && rng.Intn(3) == 0 {
+		sp.Others = 2 + rng.Intn(10)
+		sp.EnvCmd = rng.Intn(2) == 0
+	}
 	return sp
 }
 
@@ -259,6 +264,9 @@ func runEnvLaunch(c fw.Case) fw.Result {
 		for _, e := range sp.Proc {
 			fmt.Fprintf(&y, "      - %s\n", yq(e))
 		}
+	}
+	for k := 0; k < sp.Others; k++ {
+		fmt.Fprintf(&y, "  ot%d:\n    command: %s\n    environment:\n      - 'PCV_K0=own-%d'\n      - 'PCV_K1=own-%d'\n      - 'PCV_OWN=ot%d'\n", k, yq(sim.FormatCommand(sim.Script{W: w.ID}, "")), k, k, k)
 	}
 	env, err := sim.NewEnv(w, y.String(), sim.EnvOpts{})
 	if err != nil {
@@ -328,12 +336,29 @@ func runEnvLaunch(c fw.Case) fw.Result {
 			if e.Kind != sim.EvLaunch {
 				continue
 			}
+			if strings.HasPrefix(e.Proc, "ot") {
+				// the other processes: their own per-process values, nobody else's
+				eff := effectiveEnv(e.Env)
+				k := strings.TrimPrefix(e.Proc, "ot")
+				r.Count("launch_envs_checked", 1)
+				if eff["PCV_K0"] != "own-"+k || eff["PCV_K1"] != "own-"+k || eff["PCV_OWN"] != e.Proc || eff["PC_PROC_NAME"] != e.Proc {
+					r.Add("C17", "launch-env:foreign-values", "%s was launched with PCV_K0=%q PCV_K1=%q PCV_OWN=%q PC_PROC_NAME=%q: per-process values of another process", e.Proc, eff["PCV_K0"], eff["PCV_K1"], eff["PCV_OWN"], eff["PC_PROC_NAME"])
+				}
+				if sp.EnvCmd && eff["PCV_CMD"] != "from-cmd" {
+					r.Add("C17", "launch-env:env_cmds", "%s: PCV_CMD=%q, expected the env_cmds output", e.Proc, eff["PCV_CMD"])
+				}
+				continue
+			}
 			n++
 			k := 0
 			if i := strings.LastIndexByte(e.Proc, '-'); i >= 0 {
 				fmt.Sscanf(e.Proc[i+1:], "%d", &k)
 			}
-			check(e.Proc, "ev", k, effectiveEnv(e.Env), e.Dir)
+			eff := effectiveEnv(e.Env)
+			if _, has := eff["PCV_OWN"]; has {
+				r.Add("C17", "launch-env:foreign-values", "%s was launched with PCV_OWN=%q, a per-process variable of another process", e.Proc, eff["PCV_OWN"])
+			}
+			check(e.Proc, "ev", k, eff, e.Dir)
 		}
 		if n != sp.Replicas {
 			r.Add("C17", "launch-count", "%d launches observed for %d replicas", n, sp.Replicas)
